@@ -58,6 +58,9 @@ func (o outcome) String() string {
 	if o.Kind == "logs" {
 		return fmt.Sprintf("logs(%d)", len(strings.Split(o.Root, ",")))
 	}
+	if strings.HasPrefix(o.Kind, "probe:accepted") {
+		return fmt.Sprintf("probe-accepted(%d)", o.Size)
+	}
 	if o.Kind == "accepted" || o.Kind == "read" {
 		return fmt.Sprintf("%s(%d,%s)", o.Kind, o.Size, o.Root[:min(8, len(o.Root))])
 	}
@@ -169,7 +172,24 @@ func (ce *concEnv) finalState(w *witness.Witness) []outcome {
 	if err != nil {
 		o.Kind = "logs-error"
 	}
-	return append(out, o)
+	out = append(out, o)
+	// and the witness must be able to carry on: one honest growth step per log from whatever
+	// it holds now (in-process state that fell behind storage shows here, not in the reads)
+	for li := range ce.origins {
+		p := outcome{Kind: "probe-skipped"}
+		if raw, err := w.GetCheckpoint(ce.env.LogIDs[li]); err == nil {
+			h := ce.env.ScanCheckpoint(raw)
+			for bi, b := range ce.branches {
+				if h.ParseOK && h.Branch == b {
+					p = ce.do(w, ConcReq{Kind: "update", Log: li, Branch: bi, Old: h.Size, Size: h.Size + 3})
+					p.Kind = "probe:" + p.Kind
+					break
+				}
+			}
+		}
+		out = append(out, p)
+	}
+	return out
 }
 
 // refOutcomes runs the requests in the given order, one at a time, on a fresh witness
@@ -184,7 +204,7 @@ func (ce *concEnv) sequential(order []int, cache *refCache) ([]outcome, []outcom
 	cache.mu.Lock()
 	if v, ok := cache.m[key]; ok {
 		cache.mu.Unlock()
-		n := len(ce.origins) + 1
+		n := 2*len(ce.origins) + 1
 		return v[:len(v)-n], v[len(v)-n:], nil
 	}
 	cache.mu.Unlock()
@@ -496,9 +516,9 @@ func TestC05Sampled(t *testing.T) {
 // TestC05Stress: many goroutines, no scheduler; invariants over everything observed.
 func TestC05Stress(t *testing.T) {
 	st := vlib.StatsFor("C05", "stress", "8-32 goroutines x 20 requests each on one log (growth from what they last read, forks from the same size, refreshes, reads) without the scheduler, both stores, built with -race: all accepted checkpoints form one prefix chain, the final state is the largest accepted one, no goroutine sees the size go down, every value read was accepted; non-trivial = run in which >=2 goroutines had an update accepted")
-	rounds := 6
+	rounds := 24
 	if vlib.Thorough() {
-		rounds = 200
+		rounds = 400
 	}
 	for round := 0; round < rounds; round++ {
 		for _, storage := range []string{"mem", "sql"} {
